@@ -173,4 +173,123 @@ theorem rtf_proc_ingredient_ref (env : Env) (input : Str) (li : Loc (PIngredient
   simp only [inStepComponent, bind, StateT.bind, hA]
   rw [rta_pushItem _ _ items (by exact hb)]
 
+/-! ### cookware references -/
+
+structure CwRefChecksQuiet (lc : Loc (PCookware α)) (quantity : Option (ScalableValue α))
+    (defn : Cookware (ScalableValue α)) (b : Bool) : Prop where
+  note : lc.val.note = none
+  qty : (defn.quantity.isSome && quantity.isSome && !b) = false
+  text : ∀ rq dq, quantity = some rq → defn.quantity = some dq → rq.val.isText = dq.val.isText
+
+theorem rtf_cwRefChecks (input : Str) (lc : Loc (PCookware α)) (cw : Cookware (ScalableValue α))
+    (defn : Cookware (ScalableValue α)) (defLoc : Loc (PCookware α)) (rf : List Nat) (b : Bool) (s : Col α)
+    (hrel : defn.relation = .definition rf b) (hq : CwRefChecksQuiet lc cw.quantity defn b) :
+    cwRefChecks input lc cw defn defLoc s = ((), s) := by
+  obtain ⟨h2, h3, h4⟩ := hq
+  unfold cwRefChecks
+  simp only [bind, StateT.bind, pure, StateT.pure, hrel, ComponentRelation.isReference, Bool.false_eq_true, if_false, h2,
+    h3]
+  cases hq1 : cw.quantity with
+  | none => rfl
+  | some rq =>
+    cases hq2 : defn.quantity with
+    | none => rfl
+    | some dq =>
+      have := h4 rq dq hq1 hq2
+      simp [this, pure, StateT.pure, StateT.bind]
+
+def cwBacklinked (defn : Cookware (ScalableValue α)) (rf : List Nat) (n : Nat) (b : Bool) : Cookware (ScalableValue α) :=
+  { defn with relation := .definition (rf ++ [n]) b }
+
+/-- the modifiers of a resolved cookware reference: written, inherited (HIDDEN, OPT), REF -/
+def cwRefMods (mods defnMods : Modifiers) : Modifiers :=
+  ⟨mods.bits ||| (defnMods.bits &&& (Modifiers.HIDDEN ||| Modifiers.OPT)) ||| Modifiers.REF⟩
+
+def cwAsReference (cw0 : Cookware (ScalableValue α)) (defnMods : Modifiers) (t : Nat) : Cookware (ScalableValue α) :=
+  { cw0 with modifiers := cwRefMods cw0.modifiers defnMods, relation := .reference t }
+
+theorem rtf_cwResolve (env : Env) (input : Str) (lc : Loc (PCookware α)) (cw0 : Cookware (ScalableValue α))
+    (s : Col α) (t : Nat) (defn : Cookware (ScalableValue α)) (defLoc : Loc (PCookware α)) (rf : List Nat) (b : Bool)
+    (hd : s.defineMode = .all) (hdup : s.duplicateMode = .new)
+    (hREF : cw0.modifiers.contains Modifiers.REF = true) (hNEW : cw0.modifiers.contains Modifiers.NEW = false)
+    (hfound : sameNameIdx env (s.cookware.toList.map (fun x => (x.name, x.modifiers))) cw0.name = some t)
+    (hdefn : s.cookware[t]? = some defn) (hloc : s.locCw[t]? = some defLoc)
+    (hrel : defn.relation = .definition rf b)
+    (hconf : refConflict cw0.modifiers ⟨defn.modifiers.bits &&& (Modifiers.HIDDEN ||| Modifiers.OPT)⟩ = 0)
+    (hq : CwRefChecksQuiet lc cw0.quantity defn b) :
+    cwResolve env input lc cw0 s =
+      (cwAsReference cw0 defn.modifiers t,
+       { s with cookware := s.cookware.setIfInBounds t (cwBacklinked defn rf s.cookware.size b) }) := by
+  have hex : (((s.cookware.toList.map (fun x => (x.name, x.modifiers)))[t]?).map (·.2)).getD Modifiers.empty =
+      defn.modifiers := by
+    simp [hdefn]
+  unfold cwResolve
+  simp only [bind, StateT.bind, get, getThe, MonadStateOf.get, StateT.get, pure, StateT.pure]
+  rw [rtf_resolveReference env "cookware item" _ _ cw0.name cw0.modifiers lc.span lc.val.modifiers.span s t hd hdup hREF
+    hNEW hfound (by rw [hex]; exact hconf)]
+  have hchk := rtf_cwRefChecks input lc (cwAsReference cw0 defn.modifiers t) defn defLoc rf b s hrel hq
+  unfold cwAsReference cwRefMods at hchk
+  simp only [bind, StateT.bind, get, getThe, MonadStateOf.get, StateT.get, pure, StateT.pure, hex, hdefn, hloc, hchk,
+    cwSetReferencedFrom, hrel, modify, modifyGet, MonadStateOf.modifyGet, StateT.modifyGet]
+  rfl
+
+theorem rtf_cwBuild (env : Env) (input : Str) (lc : Loc (PCookware α)) (cw0 : Cookware (ScalableValue α))
+    (s : Col α) (t : Nat) (defn : Cookware (ScalableValue α)) (defLoc : Loc (PCookware α)) (rf : List Nat) (b : Bool)
+    (hd : s.defineMode = .all) (hdup : s.duplicateMode = .new)
+    (hREF : cw0.modifiers.contains Modifiers.REF = true) (hNEW : cw0.modifiers.contains Modifiers.NEW = false)
+    (hfound : sameNameIdx env (s.cookware.toList.map (fun x => (x.name, x.modifiers))) cw0.name = some t)
+    (hdefn : s.cookware[t]? = some defn) (hloc : s.locCw[t]? = some defLoc)
+    (hrel : defn.relation = .definition rf b)
+    (hconf : refConflict cw0.modifiers ⟨defn.modifiers.bits &&& (Modifiers.HIDDEN ||| Modifiers.OPT)⟩ = 0)
+    (hq : CwRefChecksQuiet lc cw0.quantity defn b) :
+    cwBuild env input lc cw0 s =
+      (s.cookware.size,
+       { s with locCw := s.locCw.push lc,
+                cookware := (s.cookware.setIfInBounds t (cwBacklinked defn rf s.cookware.size b)).push
+                  (cwAsReference cw0 defn.modifiers t) }) := by
+  unfold cwBuild
+  simp only [bind, StateT.bind]
+  rw [rtf_cwResolve env input lc cw0 s t defn defLoc rf b hd hdup hREF hNEW hfound hdefn hloc hrel hconf hq]
+  simp only [get, getThe, MonadStateOf.get, StateT.get, pure, StateT.pure, modify, modifyGet, MonadStateOf.modifyGet,
+    StateT.modifyGet, Array.size_push, Array.size_setIfInBounds, Nat.add_sub_cancel]
+
+/-- a correctly written cookware reference `#&name` inside a step block, default modes -/
+theorem rtf_proc_cookware_ref (env : Env) (input : Str) (lc : Loc (PCookware α)) (s : Col α) (items : List Item)
+    (t : Nat) (defn : Cookware (ScalableValue α)) (defLoc : Loc (PCookware α)) (rf : List Nat) (b : Bool)
+    (hd : s.defineMode = .all) (hdup : s.duplicateMode = .new) (hb : s.block = some (.step items))
+    (hlock : ∀ q, lc.val.quantity = some q → lockOK q.val false)
+    (hREF : lc.val.modifiers.val.contains Modifiers.REF = true)
+    (hNEW : lc.val.modifiers.val.contains Modifiers.NEW = false)
+    (hfound : sameNameIdx env (s.cookware.toList.map (fun x => (x.name, x.modifiers))) (cwOf env lc).name = some t)
+    (hdefn : s.cookware[t]? = some defn) (hloc : s.locCw[t]? = some defLoc)
+    (hrel : defn.relation = .definition rf b)
+    (hconf : refConflict lc.val.modifiers.val ⟨defn.modifiers.bits &&& (Modifiers.HIDDEN ||| Modifiers.OPT)⟩ = 0)
+    (hq : CwRefChecksQuiet lc (cwOf env lc).quantity defn b) :
+    (processEvent env input (.cookware lc) s).2 =
+      { s with
+        locCw := s.locCw.push lc,
+        cookware := (s.cookware.setIfInBounds t (cwBacklinked defn rf s.cookware.size b)).push
+          (cwAsReference (cwOf env lc) defn.modifiers t),
+        block := some (.step (items ++ [.cookware s.cookware.size])) } := by
+  have e : processEvent env input (.cookware lc) s = inBlockComponent env input (.cookware lc) s := rfl
+  rw [e, rta_inBlock_step env input _ s items hb]
+  have hne : (DefineMode.all != DefineMode.components) = true := by decide
+  have hA : cookwareA env input lc s =
+      (s.cookware.size,
+       { s with locCw := s.locCw.push lc,
+                cookware := (s.cookware.setIfInBounds t (cwBacklinked defn rf s.cookware.size b)).push
+                  (cwAsReference (cwOf env lc) defn.modifiers t) }) := by
+    unfold cookwareA
+    simp only [bind, StateT.bind, rta_optValueOf env _ s hlock, get, getThe, MonadStateOf.get, StateT.get, pure,
+      StateT.pure, hd, hne]
+    refine (rtf_cwBuild env input lc _ s t defn defLoc rf b hd hdup ?_ ?_ ?_ hdefn hloc hrel ?_ ?_).trans ?_
+    · exact hREF
+    · exact hNEW
+    · exact hfound
+    · exact hconf
+    · exact hq
+    · rw [← hd]; rfl
+  simp only [inStepComponent, bind, StateT.bind, hA]
+  rw [rta_pushItem _ _ items (by exact hb)]
+
 end Cook
